@@ -9,19 +9,21 @@ ENTRY = {0: ('base', r'tlx::multiway_merge_base<'), 1: ('base_sentinels', r'tlx:
 
 def jobs(tier):
     js = []
-    def J(entry, k, stable, big=0, lmax=2, tier_='quick', extra=(), lens=None):
+    def J(entry, k, stable, big=0, lmax=2, tier_='quick', extra=(), lens=None, mwma=None, size=None):
         nm, fn = ENTRY[entry]
         sent = entry in (1, 5, 7)
-        name = '%s_k%d_%s%s%s' % (nm, k, 'stable' if stable else 'unstable', '_big' if big else '', ('_L' + lens) if lens else '')
+        name = '%s_k%d_%s%s%s%s' % (nm, k, 'stable' if stable else 'unstable', '_big' if big else '', ('_L' + lens) if lens else '', ('_a%d' % mwma) if mwma is not None else '')
+        if mwma is not None: extra = list(extra) + ['FIX_MWMA=%d' % mwma]
+        if size is not None: extra = list(extra) + ['FIX_SIZE=%d' % size]; name += '_s%d' % size
         if lens: extra = list(extra) + ['FIX_LENS=%s' % lens.lstrip('0') if lens.lstrip('0') else 'FIX_LENS=0']
         js.append(Job(name=name, shim='mwmerge', contract='c05_mwmerge.c', harness='h_' + name, enforce=['c_mm'],
                       shim_defines=['ENTRY=%d' % entry, 'STABLE=%d' % stable, 'BIG=%d' % big],
                       defines=['K=%d' % k, 'STABLE=%d' % stable, 'LMAX=%d' % lmax] + (['SENTINELS'] if sent else []) + list(extra),
-                      functions=[fn], unwind=k * lmax + 4, timeout=1500, tier=tier_, mode='assert', object_bits=10,
+                      functions=[fn], unwind=max(k * lmax + 4, 4 * k + 2), timeout=1500, tier=tier_, mode='assert', object_bits=10,
                       label='bounded: %d sequences of length <= %d (total <= %d), all keys, all sizes' % (k, lmax, k * lmax),
                       what='%s, k=%d, %s, %s elements: returns target+size, inputs advanced by size in total, output ordered%s, exactly the taken elements, nothing smaller left behind' %
                            (nm, k, 'stable' if stable else 'unstable', '40-byte' if big else '2-byte', ' with ties in (sequence, position) order' if stable else '')))
-    J(0, 3, 1, lens='212'); J(2, 3, 1, lens='212'); J(3, 3, 1, lens='212')     # probes
+    for a in (0, 1): J(0, 3, 1, mwma=a, size=2); J(0, 3, 1, mwma=a, size=4); J(0, 3, 1, mwma=a, size=6); J(0, 4, 1, mwma=a, size=3)  # probes
     for stable in (0, 1):
         J(8, 2, stable, lmax=3)                       # merge_advance
         for k in (0, 1, 2, 3, 4, 5):
